@@ -96,6 +96,11 @@ func genC12(seed uint64, tier string) C12Cfg {
 	if lastFailedTopic != "" {
 		c.Phases = append(c.Phases, C12Phase{Kind: "sg-ok", Topics: []string{lastFailedTopic}})
 	}
+	// a third of the runs: the signing backend's Init takes simulated time, so that cancellations, deadlines and
+	// messages can land between the end of the first synchronisation and the registration of the handlers
+	if rd := prng.Derive(seed, "init-delay"); rd.Bool(0.35) {
+		c.Deploy.SignSP.InitDelayMs = rd.Range(1, 40)
+	}
 	return c
 }
 
@@ -298,7 +303,9 @@ func runC12(t *testing.T, spec RunSpec) *RunResult {
 					allStartedAt = w.Step
 				}
 				if cancelFn != nil && !cancelled && allStartedAt >= 0 && w.Step >= allStartedAt+ph.CancelAt {
-					out = append(out, netsim.Proposal{Key: fmt.Sprintf("p%d:cancel:%d", pi, cancelNode), Mandatory: true, Weight: 20, Fire: func() {
+					// concurrent dispatch (C20): in half of the phases the cancellation waits for a delivery into the
+					// cancelling node and is started in the same step
+					out = append(out, netsim.Proposal{Key: fmt.Sprintf("p%d:cancel:%d", pi, cancelNode), Mandatory: true, Weight: 20, JoinWith: ph.CancelAt%2 == 1, JoinNode: cancelNode, Fire: func() {
 						cancelled = true
 						w.Faults["cancel"]++
 						cancelFn()
